@@ -81,6 +81,12 @@ func linDepth(v ssa.Value, d int) linForm {
 		r.coef[normSym(v)] = 1
 		return r
 	}
+	// a local that is assigned once (possibly captured by a closure) stands for its value
+	if u := unwrapLoad(v); u != v && d < 12 {
+		if _, isLoad := u.(*ssa.UnOp); !isLoad {
+			return linDepth(u, d+1)
+		}
+	}
 	switch x := v.(type) {
 	case *ssa.Const:
 		if k, ok := constInt(x); ok {
